@@ -17,6 +17,7 @@ import (
 	"os/exec"
 	"strings"
 	"sync"
+	"syscall"
 	"time"
 )
 
@@ -28,6 +29,7 @@ type childReq struct {
 }
 
 type childResp struct {
+	Pure    *sqlOutcome    `json:"pure,omitempty"` // parse, tablefor, fields
 	Plan    *stageResult   `json:"plan,omitempty"`
 	Cluster *stageResult   `json:"cluster,omitempty"`
 	Query   *stageResult   `json:"query,omitempty"`
@@ -41,6 +43,10 @@ type childResp struct {
 func childMain() error {
 	reset := quietLogs()
 	defer reset()
+	// a stage that allocates without bound must end in a crash the parent can
+	// report, not in the machine swapping
+	lim := uint64(16 << 30)
+	syscall.Setrlimit(syscall.RLIMIT_AS, &syscall.Rlimit{Cur: lim, Max: lim})
 	out := os.NewFile(3, "resp")
 	if out == nil {
 		return fmt.Errorf("child: fd 3 missing")
@@ -92,8 +98,14 @@ func childMain() error {
 					mult = 4
 				}
 				env.timeout = mult * 10 * time.Second
+				pure := runPure(req.SQL, mult)
+				if _, st, bad := pure.worst(); bad && st.Class == clsHang {
+					// a goroutine is spinning: answer, the parent replaces this process
+					reply(&childResp{Pure: pure})
+					continue
+				}
 				pl, cl := runPlans(req.SQL, mult*pureTimeout)
-				resp := &childResp{Plan: &pl, Cluster: &cl}
+				resp := &childResp{Pure: pure, Plan: &pl, Cluster: &cl}
 				if pl.Class != clsHang && cl.Class != clsHang {
 					st := env.runQuery(req.SQL)
 					resp.Query = &st
